@@ -421,6 +421,24 @@ func p7Edits(s p7Seed) []p7Edit {
 		ias(t).Children[1].Val = serialBytes(c2.SerialNumber)
 		return true
 	})
+	add("signed by another key; the embedded certificate replaced by that key's certificate with the same issuer and serial", func(t *p7Tree) bool {
+		if t.attrs == nil || t.certs == nil {
+			return false
+		}
+		t.si.Children[t.sigIdx].Val = signAttrs(keys.K(2), t.attrs)
+		n, _ := der.Parse(s.SameName.Raw)
+		t.certs.Children = []*der.Node{n.Clone()}
+		return true
+	})
+	add("signed by another key; that key's same-issuer+serial certificate embedded in front of the genuine one", func(t *p7Tree) bool {
+		if t.attrs == nil || t.certs == nil {
+			return false
+		}
+		t.si.Children[t.sigIdx].Val = signAttrs(keys.K(2), t.attrs)
+		n, _ := der.Parse(s.SameName.Raw)
+		t.certs.Children = append([]*der.Node{n.Clone()}, t.certs.Children...)
+		return true
+	})
 	add("corrupt encryptedDigest", func(t *p7Tree) bool {
 		v := t.si.Children[t.sigIdx].Val
 		v[len(v)/2] ^= 0x80
